@@ -23,6 +23,7 @@ import (
 	"github.com/goccmack/gocc/internal/parser/first"
 	"github.com/goccmack/gocc/internal/parser/lr1/action"
 	"github.com/goccmack/gocc/internal/parser/symbols"
+	"github.com/goccmack/gocc/internal/verifhook"
 )
 
 type ItemSet struct {
@@ -126,6 +127,7 @@ func (this *ItemSet) Closure() (c *ItemSet) {
 	c.AddItem(this.Items...)
 	included := -1
 	for again := true; again; {
+		verifhook.Step(verifhook.SiteLR1Closure)
 		again = false
 		for idx, i := range c.Items {
 			if idx > included {
